@@ -423,7 +423,7 @@ class Interp(Folder):
                 return v
         if e.id == "isinstance":
             return "isinstance"
-        if e.id in ("next", "iter", "repr", "hash", "reversed", "print"):
+        if e.id in ("next", "iter", "repr", "hash", "print", "callable", "getattr", "hasattr", "id"):
             return e.id
         if e.id in self.BUILTINS:
             return self.BUILTINS[e.id]
@@ -738,6 +738,32 @@ class Interp(Folder):
             return list(args[0])
         if f == "repr":
             return repr(args[0])
+        if f == "hash":
+            return _py(lambda: hash(args[0]))
+        if f == "callable":
+            return isinstance(args[0], (Func, Native, Partial, IClass, TypeCtor, NoOp, ExcCtor, SymNS)) or callable(args[0])
+        if f == "id":
+            return id(args[0])
+        if f in ("getattr", "hasattr"):
+            if not isinstance(args[1], str):
+                self.err(node, "getattr with a computed name")
+            probe = ast.Attribute(value=ast.Name(id="__subject__", ctx=ast.Load()), attr=args[1], ctx=ast.Load())
+            if node is not None:
+                ast.copy_location(probe, node)
+                ast.copy_location(probe.value, node)
+            try:
+                v = self.ev_Attribute(probe, {"__subject__": args[0]})
+            except PyRaise as p_:
+                if p_.name != "AttributeError":
+                    raise
+                if f == "hasattr":
+                    return False
+                if len(args) > 2:
+                    return args[2]
+                raise
+            return True if f == "hasattr" else v
+        if f == "print":
+            return None
         if f is zip:
             strict = kwargs.pop("strict", False)
             seqs = [list(a) for a in args]
@@ -758,6 +784,15 @@ class Interp(Folder):
             import itertools as _it
 
             return list(_it.chain(*[list(a) for a in args]))
+        if getattr(f, "__name__", "") == "_bounded_count":
+            return f(*args, **kwargs)
+        if f is map:
+            seqs = [list(self.iterate(a)) for a in args[1:]]
+            return [self.call(args[0], list(xs), {}, node, env) for xs in zip(*seqs)]
+        if f is filter:
+            return [x for x in self.iterate(args[1]) if (bool(self.call(args[0], [x], {}, node, env)) if args[0] is not None else bool(x))]
+        if f is reversed:
+            return list(reversed(list(self.iterate(args[0]))))
         if f is functools.reduce:
             fn, it = args[0], list(args[1])
             acc = args[2] if len(args) > 2 else it.pop(0)
@@ -775,6 +810,13 @@ class Interp(Folder):
             f.__self__, (dict, list, set, str, tuple, DT, type({}.keys()), _re.Pattern)
         ):
             return _py(lambda: f(*args, **kwargs))
+        if callable(f) and getattr(f, "__module__", None) in ("operator", "_operator") and any(isinstance(a_, (Term, SymNS)) for a_ in args):
+            # operator.and_(x, y) on symbolic operands is the term `x & y` builds
+            opname = {"and_": "BitAnd", "or_": "BitOr", "xor": "BitXor", "add": "Add", "sub": "Sub", "mul": "Mult", "truediv": "Div", "floordiv": "FloorDiv",
+                      "mod": "Mod", "pow": "Pow", "eq": "Eq", "ne": "NotEq", "lt": "Lt", "le": "LtE", "gt": "Gt", "ge": "GtE", "invert": "Invert", "neg": "USub",
+                      "not_": "Not"}.get(getattr(f, "__name__", ""))  # fmt: skip
+            if opname is not None:
+                return Term("op:" + opname, tuple(args))
         if callable(f) and getattr(f, "__module__", None) in ("operator", "_operator", "copy", "re", "math"):
             return _py(lambda: f(*args, **kwargs))
         if callable(f) and getattr(f, "__module__", None) == "itertools":
